@@ -5,6 +5,22 @@
 //
 // spec JSON: {"files": {"data_source.go": {"exclude": ["ProcessSegments"], "only": []}, ...},
 //             "crash": {"client_updater.go": ["saveState"]}}
+//
+// Opt-in per-file options (all default to off; without them the output is unchanged):
+//
+//	"call_points": ["aw.writer.Flush", "*.Write"]  a plain vhook.P point before every statement that contains a
+//	               call whose function expression has exactly this source text, or ("*.Name") any method /
+//	               qualified call with this selector name: the goroutine can be stalled right before the call
+//	               (kind "call"), e.g. between draining a queue and the disk write.
+//	"atomics": true   calls of methods named Load / Store / Swap / CompareAndSwap / Add / And / Or and of
+//	               functions of package atomic become scheduling points (kind "atomic").
+//	"opt_guard": "VerifStallPoints"   the points of the two options above are emitted as
+//	               `if VerifStallPoints { vhook.P(id) }`: a package-level bool of the instrumented package
+//	               (supplied through the overlay) switches them on per execution.
+//
+// Where no statement can be inserted (the condition of a `for` loop, which is evaluated again on every
+// iteration, and of an `else if`), the opt-in points are put into the condition itself:
+// `func() bool { vhook.P(id); return true }() && (cond)`.
 // output: <out>/<flattened name>.go, <out>/map.json {orig abs path: new abs path}, <out>/points.json
 package main
 
@@ -22,8 +38,11 @@ import (
 )
 
 type fileSpec struct {
-	Exclude []string `json:"exclude"`
-	Only    []string `json:"only"`
+	Exclude    []string `json:"exclude"`
+	Only       []string `json:"only"`
+	CallPoints []string `json:"call_points"`
+	Atomics    bool     `json:"atomics"`
+	OptGuard   string   `json:"opt_guard"`
 }
 
 type spec struct {
@@ -78,7 +97,74 @@ func exprSync(e ast.Node) (kind string) {
 	return kind
 }
 
+var atomicMethods = map[string]bool{"Load": true, "Store": true, "Swap": true, "CompareAndSwap": true, "Add": true, "And": true, "Or": true}
+
+// exprOpt reports whether the node (not descending into function literals) contains a call selected by the
+// opt-in options of the file: "atomic" (atomics) or "call" (call_points); "" if none or no option is set.
+func (in *instr) exprOpt(e ast.Node) (kind string) {
+	if e == nil || (!in.fs.Atomics && len(in.fs.CallPoints) == 0) {
+		return ""
+	}
+	ast.Inspect(e, func(n ast.Node) bool {
+		if kind != "" {
+			return false
+		}
+		switch v := n.(type) {
+		case *ast.FuncLit:
+			return false
+		case *ast.CallExpr:
+			sel, isSel := v.Fun.(*ast.SelectorExpr)
+			if in.fs.Atomics && isSel {
+				if id, ok := sel.X.(*ast.Ident); (ok && id.Name == "atomic") || atomicMethods[sel.Sel.Name] {
+					kind = "atomic"
+					return false
+				}
+			}
+			if len(in.fs.CallPoints) > 0 {
+				text := strings.Join(strings.Fields(string(in.src[in.fset.Position(v.Fun.Pos()).Offset:in.fset.Position(v.Fun.End()).Offset])), "")
+				for _, cp := range in.fs.CallPoints {
+					if cp == text || (isSel && strings.HasPrefix(cp, "*.") && cp[2:] == sel.Sel.Name) {
+						kind = "call"
+						return false
+					}
+				}
+			}
+		}
+		return true
+	})
+	return kind
+}
+
+func (in *instr) optText(id int) string {
+	if in.fs.OptGuard != "" {
+		return fmt.Sprintf("if %s { vhook.P(%d) }", in.fs.OptGuard, id)
+	}
+	return fmt.Sprintf("vhook.P(%d)", id)
+}
+
+func (in *instr) newPoint(pos token.Pos, kind string) int {
+	id := *in.nextID
+	*in.nextID++
+	p := in.fset.Position(pos)
+	*in.points = append(*in.points, point{ID: id, File: in.file, Line: p.Line, Func: in.funcName, Kind: kind})
+	return id
+}
+
+// addOptPoint inserts an opt-in point (kind "atomic" / "call") before the statement at pos.
+func (in *instr) addOptPoint(pos token.Pos, kind string) {
+	id := in.newPoint(pos, kind)
+	in.ins = append(in.ins, insertion{in.fset.Position(pos).Offset, in.optText(id) + "; "})
+}
+
+// wrapCond puts an opt-in point into a condition that no statement can precede.
+func (in *instr) wrapCond(cond ast.Expr, kind string) {
+	id := in.newPoint(cond.Pos(), kind)
+	in.ins = append(in.ins, insertion{in.fset.Position(cond.Pos()).Offset, fmt.Sprintf("func() bool { %s; return true }() && (", in.optText(id))})
+	in.ins = append(in.ins, insertion{in.fset.Position(cond.End()).Offset, ")"})
+}
+
 type instr struct {
+	fs       fileSpec
 	fset     *token.FileSet
 	file     string
 	src      []byte
@@ -196,6 +282,15 @@ func (in *instr) stmt(s ast.Stmt, inList bool) {
 			}
 			if k != "" {
 				in.addPoint(v.Pos(), k, 0)
+			} else if k := in.exprOpt(v.Init); k != "" {
+				in.addOptPoint(v.Pos(), k)
+			} else if k := in.exprOpt(v.Cond); k != "" {
+				in.addOptPoint(v.Pos(), k)
+			}
+		}
+		if !inList && !in.crash && v.Init == nil {
+			if k := in.exprOpt(v.Cond); k != "" { // else if: the point goes into the condition
+				in.wrapCond(v.Cond, k)
 			}
 		}
 		if inList && in.crash && (callsPkg(v.Init, "os", "viper") || callsPkg(v.Cond, "os", "viper")) {
@@ -208,11 +303,26 @@ func (in *instr) stmt(s ast.Stmt, inList bool) {
 			in.stmt(v.Else, false)
 		}
 	case *ast.ForStmt:
+		if !in.crash {
+			if k := in.exprOpt(v.Init); k != "" && inList {
+				in.addOptPoint(v.Pos(), k)
+			}
+			if v.Cond != nil {
+				if k := in.exprOpt(v.Cond); k != "" { // evaluated on every iteration: the point goes into the condition
+					in.wrapCond(v.Cond, k)
+				}
+			}
+		}
 		in.funcLits(v.Init)
 		in.funcLits(v.Cond)
 		in.funcLits(v.Post)
 		in.stmtList(v.Body.List)
 	case *ast.RangeStmt:
+		if inList && !in.crash {
+			if k := in.exprOpt(v.X); k != "" {
+				in.addOptPoint(v.Pos(), k)
+			}
+		}
 		in.funcLits(v.X)
 		in.stmtList(v.Body.List)
 	case *ast.SwitchStmt:
@@ -221,6 +331,10 @@ func (in *instr) stmt(s ast.Stmt, inList bool) {
 				in.addPoint(v.Pos(), k, 0)
 			} else if k := exprSync(v.Tag); k != "" {
 				in.addPoint(v.Pos(), k, 0)
+			} else if k := in.exprOpt(v.Init); k != "" {
+				in.addOptPoint(v.Pos(), k)
+			} else if k := in.exprOpt(v.Tag); k != "" {
+				in.addOptPoint(v.Pos(), k)
 			}
 		}
 		for _, c := range v.Body.List {
@@ -291,6 +405,8 @@ func (in *instr) stmt(s ast.Stmt, inList bool) {
 		}
 		if kind != "" && inList {
 			in.addPoint(s.Pos(), kind, 0)
+		} else if k := in.exprOpt(s); k != "" && inList {
+			in.addOptPoint(s.Pos(), k)
 		}
 		in.funcLits(s)
 	}
@@ -352,7 +468,7 @@ func main() {
 			os.Exit(1)
 		}
 		fs, doSync := sp.Files[rel]
-		in := &instr{fset: fset, file: rel, src: src, points: &points, nextID: &nextID}
+		in := &instr{fs: fs, fset: fset, file: rel, src: src, points: &points, nextID: &nextID}
 		for _, d := range af.Decls {
 			fd, ok := d.(*ast.FuncDecl)
 			if !ok || fd.Body == nil {
